@@ -223,8 +223,11 @@ class VTKWriter:
             for field in nodalFields:
                 fieldRecord = nodalFields[field]
                 for sphere in self.spheres:
-                    uNew = np.vstack( (fieldRecord.data,
-                                       default_values(fieldRecord.fieldType, fieldRecord.dataType)) )
+                    # pad in the field's own dtype: stacking a python 0 onto e.g. uint64 data
+                    # would promote the whole field to float64
+                    padding = np.asarray(default_values(fieldRecord.fieldType, fieldRecord.dataType),
+                                         dtype=fieldRecord.data.dtype)
+                    uNew = np.vstack( (fieldRecord.data, padding) )
                     fieldRecord = self.VTKFieldRecord(uNew,
                                                       fieldRecord.fieldType,
                                                       fieldRecord.dataType)
@@ -252,8 +255,11 @@ class VTKWriter:
             for field in cellFields:
                 fieldRecord = cellFields[field]
                 for edge in self.contactEdges:
-                    uNew = np.vstack( (fieldRecord.data,
-                                       default_values(fieldRecord.fieldType, fieldRecord.dataType)) )
+                    # pad in the field's own dtype: stacking a python 0 onto e.g. uint64 data
+                    # would promote the whole field to float64
+                    padding = np.asarray(default_values(fieldRecord.fieldType, fieldRecord.dataType),
+                                         dtype=fieldRecord.data.dtype)
+                    uNew = np.vstack( (fieldRecord.data, padding) )
                     fieldRecord = self.VTKFieldRecord(uNew,
                                                       fieldRecord.fieldType,
                                                       fieldRecord.dataType)
